@@ -28,7 +28,7 @@ CHECKS = {
  "C06": ("seqmc", "model_checking", "§8 C06",
    "exhaustive sweep of ~700 boundary size values x entry points over every stored state of the explored graph",
    "Every stored state of the explored graph x every live handle x try_reserve/reserve/try_shrink_to/shrink_to/extend(size_hint) x every value of a boundary family covering 0..=usize::MAX (powers of two +-2, the 56-bit limit, isize::MAX, usize::MAX, each minus len); plus with_capacity/try_with_capacity/collect(hint). Ok must satisfy the documented postcondition; Err / clean panic must leave the exact canonical pool unchanged (texts, capacities, pointers, reference counts); follow-ups and closing must be clean.",
-   "Sizes are a finite boundary family, not all 2^64 values. Requests above 1 MiB are refused by the shim instead of the OS."),
+   "Sizes are a finite boundary family, not all 2^64 values. Requests above 1 MiB are refused by the shim instead of the OS. Thorough tier: a reduced size probe hosted by Miri for i686 and powerpc, where the size arithmetic is different code (DESIGN section 15)."),
  "C07": ("seqmc", "model_checking", "§8 C07",
    "exhaustive index enumeration (0..=len+2) x operations x storage states, String as accept/panic reference, exact-state comparison for rejected calls",
    "insert/insert_str/remove/truncate and their try_ forms at every byte index on every handle of every stored state, and on every text over the four UTF-8 widths up to a length bound in 7 storage states; panics exactly when String panics; a rejected call leaves the exact canonical state (incl. buffer bytes, capacities, reference counts) unchanged and allocates nothing; UTF-8 validity always.",
@@ -60,7 +60,7 @@ CHECKS = {
  "C14": ("enumc", "exploration", "§8 C14, §6",
    "exhaustive enumeration of bounded input domains (all 8/16/32-bit values; structured 64/128-bit families) against core::fmt::Display",
    "Every value of the 8-, 16- and (thorough) 32-bit integer types and their NonZero forms, and for 64/128-bit types every |v| below a bound, every power of ten/two +-3, type extremes, and every digit count x 4-digit window position x window value x 3 backgrounds, both signs; to_lean_string() bytes must equal Display's. The enumeration is complete over each listed domain; nothing is sampled.",
-   "64/128-bit values outside the listed families are not covered (stated in the evidence). Quick tier strides the 32-bit sweep."),
+   "64/128-bit values outside the listed families are not covered (stated in the evidence). Quick tier strides the 32-bit sweep. Thorough tier: the families (plus F-div) once more hosted by Miri for i686 and powerpc, whose integer formatter is a different instantiation (DESIGN section 15)."),
  "C15": ("enumc", "exploration", "§8 C15, §6",
    "exhaustive enumeration: every char, every text up to a length bound through 6 Display carriers, every split/err position of piecewise Display impls, all 2^32 f32 bit patterns (thorough), structured f64 family",
    "to_lean_string()/try_to_lean_string() equal to_string() on every enumerated input; a Display error gives Err(Fmt) (panic in the plain form) at every error position; every f32 bit pattern (thorough) and a structured f64 family (every exponent x structured mantissas, decimal stress values) parse back to the identical bits.",
@@ -84,7 +84,7 @@ CHECKS = {
  "C20": ("cfgdiff", "model_checking", "§8 C20, §7",
    "the explicit-state explorer rebuilt under 6 feature x profile configurations (+ the main build); per-level state-graph digests compared; niche/Option oracles in every state; cargo check over the 16-entry feature matrix",
    "The wide state graph is explored by seven builds of the same explorer (default / no-default-features / all features x dev / release without debug assertions, plus release with assertions) with the C01-C03 oracles on; states, transitions and the sum of state-key hashes per level must be identical across all of them; in every state every handle's last byte avoids the None niche and Some(s) round-trips; every possible 16th byte and heap/static strings of many lengths go through the Option round trip; size/alignment facts are asserted; every subset of {std, serde, arbitrary} x hooks on/off must compile.",
-   "Only the installed 64-bit little-endian target; 32-bit/big-endian layouts are not covered."),
+   "Quick tier: the installed 64-bit little-endian target only. Thorough tier: the explorer (wide profile to depth 2, niche sweep, single-operation sweep on long texts) hosted by Miri for x86_64, i686 and powerpc64 (big-endian); 32-bit length-on-heap layout: see C01/C03."),
 }
 
 
